@@ -10,13 +10,17 @@
 package main
 
 import (
+	"context"
 	"fmt"
+	httpscenario "github.com/yandex/pandora/components/guns/http_scenario"
+	"github.com/yandex/pandora/core"
 	"math/rand"
 	"net/http"
 	"sort"
 	"strconv"
 	"strings"
 	"sync"
+	"sync/atomic"
 	"time"
 
 	"verif/harness/vkit"
@@ -605,6 +609,91 @@ func diffCounts(want, got map[string]int) string {
 	return strings.Join(d, "; ")
 }
 
+// nextFirstAccess: all instances shooting a scenario share its [next] counters, and at the start
+// of a run they all resolve the same path for the first time at the same moment. Over many
+// fresh scenarios, 8 concurrent first resolutions must still hand out rows 0…7, each once.
+func nextFirstAccess(res *vkit.Result, rounds int) {
+	_ = vkit.WriteMemAt("/c15/next.csv", []byte("0,a\n1,b\n2,c\n3,d\n4,e\n5,f\n6,g\n7,h\n8,i\n9,j\n"))
+	yaml := `variable_sources:
+  - type: "file/csv"
+    name: "rows"
+    file: "/c15/next.csv"
+    fields: ["id", "val"]
+requests:
+  - name: "r"
+    method: "GET"
+    uri: "/"
+    headers: {}
+    preprocessor:
+      mapping: {"rowobj": "source.rows[next]"}
+scenarios:
+  - name: "s"
+    requests: ["r"]
+`
+	_ = vkit.WriteMemAt("/c15/next.yaml", []byte(yaml))
+	defer vkit.RemoveMem("/c15/next.yaml")
+	defer vkit.RemoveMem("/c15/next.csv")
+	c := map[string]any{"probe": "8 concurrent first resolutions of source.rows[next] on a fresh scenario", "rounds": rounds}
+	const workers = 8
+	for r := 0; r < rounds; r++ {
+		p, err := vkit.NewProvider(map[string]any{"type": "http/scenario", "file": "/c15/next.yaml", "limit": 1})
+		if err != nil {
+			res.Inconclusive(true, "next probe: provider rejected: %v", err)
+			return
+		}
+		ctx, cancel := context.WithCancel(context.Background())
+		done := make(chan error, 1)
+		go func() { done <- p.Run(ctx, core.ProviderDeps{Log: vkit.NopLog()}) }()
+		a, ok := p.Acquire()
+		cancel()
+		<-done
+		sc, isSc := a.(*httpscenario.Scenario)
+		if !ok || !isSc || len(sc.Requests) == 0 || sc.Requests[0].Preprocessor == nil {
+			res.Inconclusive(true, "next probe: no scenario ammo with a preprocessor (%T)", a)
+			return
+		}
+		pre := sc.Requests[0].Preprocessor
+		vars := sc.VariableStorage.Variables()
+		rows := make([]string, workers)
+		var wg sync.WaitGroup
+		var ready atomic.Int32
+		for w := 0; w < workers; w++ {
+			wg.Add(1)
+			go func(w int) {
+				defer wg.Done()
+				ready.Add(1)
+				for ready.Load() < workers {
+				}
+				out, err := pre.Process(map[string]any{"source": vars})
+				if err != nil {
+					rows[w] = "error: " + err.Error()
+					return
+				}
+				if m, ok := out["rowobj"].(map[string]any); ok {
+					rows[w] = fmt.Sprint(m["id"])
+				} else {
+					rows[w] = fmt.Sprintf("%v", out["rowobj"])
+				}
+			}(w)
+		}
+		wg.Wait()
+		seen := map[string]int{}
+		for _, x := range rows {
+			seen[x]++
+		}
+		okAll := len(seen) == workers
+		for i := 0; i < workers && okAll; i++ {
+			okAll = seen[strconv.Itoa(i)] == 1
+		}
+		if !okAll {
+			res.Violate("C15/next/first-access", fmt.Sprintf("round %d: 8 instances resolving source.rows[next] for the first time got rows %v, want 0…7 each once", r, rows), c)
+			break
+		}
+		res.Count("next_first_access_rounds", 1)
+	}
+	res.Eval("next-first-access", true)
+}
+
 func main() {
 	vkit.Fs()
 	res := vkit.NewResult("generated HTTP scenario descriptions (1–3 weighted scenarios, request lists with name, name(n), name(n, ms), sleep(ms), min_waiting_time, csv and variables sources, [next] row mapping, values captured with var/jsonpath and var/header flowing into URI, headers and body of later steps, assert/response on every step, optional always-failing template) × scripted target failures per (shot, position) ∈ {status contradicting the assertion, dropped connection, unparsable JSON, empty body} × 1 or 4 instances; distinct = distinct (description, failure plan); non-trivial = at least one shot fully judged")
@@ -626,6 +715,7 @@ func main() {
 		}
 		runCase(res, genCase(rng, inst), i)
 	}
+	nextFirstAccess(res, vkit.N(2500, 40000))
 	vkit.CheckRaceLog(res, "C15")
 	if res.Counter("shots_judged") < 100 || res.Counter("scripted_failures") < 20 || res.Counter("pauses_judged") < 10 {
 		res.Inconclusive(true, "too little observed: %d shots, %d scripted failures, %d pauses", res.Counter("shots_judged"), res.Counter("scripted_failures"), res.Counter("pauses_judged"))
